@@ -263,9 +263,12 @@ class rule_list:
 
         for oSeverity in self.oSeverityList.get_severities():
             dRunInfo["severities"][oSeverity.name] = 0
+        dRunInfo["error_type_violations"] = 0
         for dViolation in dRunInfo["violations"]:
             name = dViolation["severity"]["name"]
             dRunInfo["severities"][name] = dRunInfo["severities"][name] + 1
+            if dViolation["severity"]["type"] == severity.error_type:
+                dRunInfo["error_type_violations"] += 1
 
         if sOutputFormat == "vsg":
             sOutputStd, sOutputErr = report.vsg_stdout.print_output(dRunInfo)
